@@ -2,9 +2,9 @@
 from __future__ import annotations
 from engine.registry import Registry
 from engine import sortmodel, polymodel
-from contracts import option, sorting, align, compare, order_lemmas, leading
+from contracts import option, sorting, align, compare, order_lemmas, leading, dispatch
 
-_CONTRACT_MODULES = [option, sorting, align, compare, leading]
+_CONTRACT_MODULES = [option, sorting, align, compare, leading, dispatch]
 
 ALL_CONTRACTS = {}
 for _m in _CONTRACT_MODULES:
@@ -39,6 +39,25 @@ COMMON_TRUSTED = [
 ]
 
 PROPS = {
+    "C08": dict(
+        level="other",
+        contracts=["numpoly.ndpoly.__array_ufunc__", "numpoly.ndpoly.__array_function__"],
+        statics=[dispatch.static_obligations],
+        trusted_base=COMMON_TRUSTED + [
+            "A5 numpy protocol: operators, ndarray methods and numpy API calls reach __array_ufunc__/__array_function__ as "
+            "documented by numpy (numpy C code); which callables take part is sampled by the bounded sweep",
+            "registries reconstructed from the @implements* decorators in the AST (import-time execution of decorators trusted)"],
+        assumptions=["A5 (numpy override protocol)", "logging calls are effect-free"],
+        explanation="__array_ufunc__ and __array_function__ are under contract for every method string and symbolic "
+                    "registries: they return exactly the registered implementation applied to the unchanged arguments and "
+                    "raise FeatureNotSupported and nothing else otherwise (dictionary lookups are obligations, so a KeyError "
+                    "path fails a named obligation). A static exhaustive enumeration of the registries proves that numpy.f is "
+                    "implemented by the function exported as numpoly.f (division trio: the documented poly_* functions) and "
+                    "that the operator methods forward to the documented functions with operands in order; hence the spellings "
+                    "agree by identity of the callee, given numpy's protocol. The sweep over numpy's public API (which callables "
+                    "dispatch) is a bounded run-time check.",
+        not_decided=["that numpy consults the hooks for each public callable (numpy C code): bounded sweep only"],
+    ),
     "C14": dict(
         level="proof",
         contracts=["numpoly.get_options", "numpoly.set_options", "numpoly.global_options"],
